@@ -161,6 +161,27 @@ TRUSTED_BASE = [
     "non-iterable `fields` iterates as empty (CPython raises TypeError): the equality for apply_obligations is stated for documented specs "
     "(plainSpec); by hand remains DecisionLogger (sampling, priority of the redaction sets, size bound, the except fall-back)",
     "for the translated local ReBAC checker rbacx/rebac/local.py (C12): the TYPED translator harness/pytolean_rebac.py and the meanings in lean/Rbacx/Model/PyRebac.lean, validated against CPython on every run (Run/SrcEvalRebac.lean: check, batch_check and every helper on the real store / checker); the trusted readings are: TYPES FROM ANNOTATIONS — str/int/bool/tuple/list/set/dict/`| None` are String/Int/Bool/products/List/PySet/Dict/Option, the frozen dataclass RelTuple is a structure generated from its fields, a This/ComputedUserset/TupleToUserset instance, a list of rule values, None or anything else is PyR.Obj (isinstance = constructor test, a field read behind it); the equalities speak about arguments of the annotated types; `while queue:` is PyR.whileRet on the tuple (clock counter, and the variables bound before the loop that the body assigns or mutates) with a budget (that Rebac.fuelBound suffices is a theorem), a body `return` ends the loop; queue.pop(0)/append, seen.add, memo[k] = v on locals bound once to a fresh []/set()/{} are rebinding; a set is the duplicate-free list of its members seen only through `in`/`.add`; a generator is the list of its yields, `for` inside it is flatMap, the recursion of _expand is well-founded on the size of the expression (proved at definition); self.<index>.setdefault(k, []).append(t) in `add` is state passing on the store value (the lists are created by the store and only read elsewhere; values, not references: a store or rule map mutated during a call is not represented); `context` is ERASED and the caveat registry is an OUTCOME TABLE name -> unregistered | raises | truth value of bool(pred(context)) (user code, external; calling None raises TypeError = raises), `try: … bool(pred(context)) … except Exception` is a match on that outcome and nothing else in the try body can raise; logger calls are dropped; time.perf_counter_ns() is the next element of a reading sequence `clock : Nat -> Int` (counter threaded through the loop state); in batch_check the method self.check is NOT unfolded but a parameter chk j = the result of the j-th call (the model's batchLoop has the same parameter; batch_check_model composes it with the translated check under per-call clocks); constructor defaults are not applied (callers pass every argument); the plugin test-compiles its own rendering (cached) and reports text that does not elaborate as a failed extraction",
+    "for THE COMPILER translated whole, compile(policy) + the closure decide(env) it returns (C03; harness/pytolean_closure.py on top of "
+    "pytolean_except.py, lean/Rbacx/Model/PyIdent.lean, plugin extractors/src_translation_compile.py, obligation Run/C03_whole.lean, validated "
+    "against the real compile(policy)(env) on every C03 run by Run/SrcEvalCompile.lean: result dict with key order or exception class) the "
+    "trusted readings are: CLOSURE = INLINING — `return decide` is the body of the nested def with the compile-time variables as they are at the "
+    "return (accepted only when nothing rebinds or operates in place on a captured variable after the def, inside the closure or between "
+    "calls), `return lambda env: e` is e, so one definition stands for compile(policy)(env) and state kept ACROSS calls of one compiled "
+    "function is not represented (the session / overlap cases of the check look at that on the real code); OBJECT IDENTITY = POSITION — a "
+    "shape inference finds the variables holding objects observed through id(); such an object is the pair (identity, value), identities "
+    "are given where a plain value flows into a list of such objects (rules = … or []) as the position in that list, id(x) reads the "
+    "identity and every other use the value: two occurrences of ONE dict object in a rules list (never produced by a JSON / YAML loader) "
+    "are not represented; IN-PLACE OPERATIONS on a local that every assignment binds to a fresh display ([], {}, set(), a display of those) "
+    "are rebinding — append / add / xs[i].append / xs[i] = v / d.setdefault(k, []).append / sort(key=…) — accepted only while no bare use "
+    "of the variable or of an item of it that could be an alias is followed by such an operation; a dict all of whose keys are id(…) "
+    "values is the insertion-ordered list of its entries; list.sort(key) is a stable insertion sort on int keys (other key kinds are not "
+    "represented); range(<int constants>) is evaluated by CPython at translation time; a for loop carries the variables its body assigns or "
+    "operates on that are definitely assigned before it; the string literal of `….get(\"algorithm\") or <literal>` is emitted as "
+    "Src.compile_default and judged by C17; CALLED, not re-translated: _actions, _categorize, match_resource, _is_strict as the total "
+    "translations of C03_translated / C05_translated (an item of rules, a rule's resource or env['resource'] that is a truthy non-dict "
+    "makes CPython raise AttributeError where they answer: not judged by the comparison) and evaluate / decide as translated for C02_whole; "
+    "PARTIAL: proved on the generated text are the set delegation and the prologue, plus three kernel-evaluated witnesses; the index / seen "
+    "set / sort / bucket part is tied by the differential runs (its generic lemmas are proved in Proofs/CompileTranslated.lean)",
 ]
 
 
